@@ -6,7 +6,7 @@ patterns *and* instances.  A data race between operations on distinct objects ne
 an object both threads can reach; with no static mutable state, no fields that alias
 library-owned storage and no non-reentrant libc calls there is none.
 """
-from .. import facts, ir, report
+from .. import facts, ir, report, witness
 
 NON_REENTRANT = {
     'strerror', 'localtime', 'gmtime', 'asctime', 'ctime', 'strtok', 'rand', 'srand', 'getenv', 'setenv',
@@ -154,4 +154,5 @@ def run(chk, db):
                        'thread-safe on distinct objects (libc/libstdc++ contract)']
     facts.gate(chk, db, ['nop/'])
     rules(chk, db)
+    witness.run(chk, 'c19_slots.cpp', 'S6', 'compile-time witnesses: slot tag types denote distinct (T, Slot) pairs', minimum=10)
     report.selftest(chk, rules, 'c19.cpp', {'S1': 4, 'S2': 1, 'S3': 2, 'S4': 2, 'S5': 2})
